@@ -98,6 +98,20 @@ Definition check_cse_parts (es : list expr) (reps : list (expr * expr)) (red bac
         check_closed es (map fst nr) (red ++ map snd nr) ]
   end.
 
+(* ---------- guards: the classes of inputs on which the code departs from the property
+   (CseRefuted.v), excluded from the faithfulness theorem ---------- *)
+Definition is_reserved_funsym (e : expr) : bool :=
+  match e with
+  | EFunSym nm _ => bytes_eqb nm name_add || bytes_eqb nm name_mul || bytes_eqb nm name_pow
+  | _ => false
+  end.
+Definition guard_reserved (es : list expr) : bool := existsb (any_node is_reserved_funsym) es.
+Definition is_piecewise (e : expr) : bool := match e with EPw _ => true | _ => false end.
+Definition guard_piecewise (es : list expr) : bool := existsb (any_node is_piecewise) es.
+
+Definition guard_node (e : expr) : bool := is_reserved_funsym e || is_piecewise e.
+Definition cse_guard (es : list expr) : bool := existsb (any_node guard_node) es.
+
 (* ---------- model-side back-substitution ---------- *)
 (* e with the Symbol named n replaced by r, every node above a replaced leaf rebuilt through
    the constructors (the rebuild dispatch of TransformVisitor / RebuildVisitor) *)
